@@ -94,9 +94,12 @@ class Ctx:
         return self._term(self.st.env[hit])
 
     def val(self, name):
+        hit = None
         for vid, nm in self.st.names.items():
             if nm == name and vid in self.st.env:
                 hit = self.st.env[vid]
+        if hit is None:
+            raise ExtractionError(f'spec refers to local "{name}" which is not in scope (renamed?)')
         return hit
 
     def arg(self, name):
@@ -163,6 +166,20 @@ class Ctx:
         region = self.R(region)
         return self.st.len_of(region)
 
+    def elem_fact(self, region, leaf, idx, kind='real'):
+        """instance, at index idx, of an element-wise precondition (ElemInv) of the unit under verification;
+        it speaks about the array as it was at function entry"""
+        region = self.R(region)
+        inv = (self.ex.elem_inv or {}).get((region, leaf))
+        if inv is None:
+            raise ExtractionError(f'no element invariant for {region}.{leaf}')
+        e = Ctx(self.ex, self.ex.entry, self.ex.entry, self.args, self.this)
+        return inv(self.ex.entry, idx, e.sel(region, idx, leaf, kind))
+
+    def pre_arr(self, region, leaf='', kind='real'):
+        """array as it was when the current loop was entered"""
+        return Ctx(self.ex, self.pre, self._old, self.args, self.this).arr(region, leaf, kind)
+
     def g(self, name):
         return self.ghost[name]
 
@@ -193,6 +210,7 @@ class Exec:
         self.curline = None
         self.scope_stack = []
         self.randoms = []
+        self.fft_log = []
         self.def_unfoldings = 0
 
     # -------------------------------------------------------------- obligations
@@ -321,6 +339,7 @@ class Exec:
     # -------------------------------------------------------------- expression evaluation
     def ev(self, n, st):
         """rvalue"""
+        self.cur_state = st
         k = n['kind']
         ln = line_of(n)
         if ln:
@@ -528,7 +547,34 @@ class Exec:
 
     def ev_FloatingLiteral(self, n, st):
         self.ideal = True
-        return RealV(R(Fraction(n['value'])), parse_type(n['type']))
+        return RealV(R(self.literal_value(n)), parse_type(n['type']))
+
+    _srccache = {}
+
+    def literal_value(self, n):
+        """the decimal literal as written in the source (A-IDEAL: literals are exact rationals);
+        clang's JSON only carries the rounded double"""
+        import re, os
+        b = n.get('range', {}).get('begin', {})
+        b = b.get('spellingLoc', b)
+        off, ln = b.get('offset'), b.get('tokLen')
+        if off is not None and ln:
+            for path in [b.get('file'), self.tu.path] + [os.path.join(root, f) for root in (os.path.join(os.path.dirname(os.path.dirname(self.tu.path)), '..', 'inc'),) for f in ()]:
+                if not path or not os.path.exists(path):
+                    continue
+                data = Exec._srccache.get(path)
+                if data is None:
+                    data = Exec._srccache[path] = open(path, 'rb').read()
+                tok = data[off:off + ln].decode('ascii', 'replace')
+                m = re.fullmatch(r'([0-9]*\.?[0-9]*(?:[eE][+-]?[0-9]+)?)[fFlL]?', tok)
+                if m and m.group(1) not in ('', '.'):
+                    try:
+                        v = Fraction(m.group(1))
+                        if abs(float(v) - float(n['value'])) <= 1e-6 * max(1.0, abs(float(v))):
+                            return v
+                    except (ValueError, ZeroDivisionError):
+                        pass
+        return Fraction(n['value'])
 
     def ev_CXXBoolLiteralExpr(self, n, st):
         return BoolV(z3.BoolVal(bool(n['value'])))
@@ -979,8 +1025,15 @@ class Exec:
         """real product; with uf_mul the product of two non-constant terms is an uninterpreted
         (hence more general) function, for units whose obligations only need congruence"""
         if self.uf_mul and not z3.is_rational_value(z3.simplify(x)) and not z3.is_rational_value(z3.simplify(y)):
-            return models.FMUL(x, y)
+            r = models.FMUL(x, y)
+            if self.uf_mul == 'sign' and self.cur_state is not None:
+                # sign rules of multiplication (true of the real product the symbol stands for)
+                self.cur_state.assume(z3.And(z3.Implies(z3.And(x >= 0, y >= 0), r >= 0), z3.Implies(z3.And(x <= 0, y <= 0), r >= 0),
+                                             z3.Implies(z3.Or(x == 0, y == 0), r == 0)))
+            return r
         return x * y
+
+    cur_state = None
 
     def ptrcmp(self, op, a, b):
         if op not in ('==', '!='):
@@ -1097,6 +1150,8 @@ class Exec:
                     return self.ev_InitListExpr({'type': n['type'], 'inner': []}, st) if not v else v
             if len(args) == 0:
                 return None      # default-initialised POD: indeterminate
+            if pod == 'complex' and len(args) == 2 and args[1].get('kind') == 'CXXDefaultArgExpr' and not args[1].get('inner'):
+                return StructV('complex', {'re': self.conv_to(self.ev(args[0], st), parse_type_str('float')), 'im': RealV(R(0))})
             if pod == 'complex' and len(args) == 2:
                 return StructV('complex', {'re': self.conv_to(self.ev(args[0], st), parse_type_str('float')),
                                            'im': self.conv_to(self.ev(args[1], st), parse_type_str('float'))})
@@ -1385,6 +1440,8 @@ class Exec:
             v = self.ev(e, st)
         finally:
             self.pending_name = None
+        if isinstance(v, Opaque) and v.what.startswith('empty:') and ct.kind == 'class':
+            v = models.default_construct(self, st, d, ct)
         if isinstance(v, list):
             v = models.from_initlist(self, st, d, ct, v)
         if isinstance(v, ObjRef) and ct.kind == 'class' and class_kind(ct.name) in ('vector', 'marray') and not isref:
@@ -1608,6 +1665,7 @@ class Exec:
             return outs + rets
         # ---- invariant-based
         cx = Ctx(self, st, self.entry, self.args0, None)
+        cx.pre = st.copy()
         if spec.defs:
             for f in spec.defs(cx, cx):
                 st.assume(f)
@@ -1649,7 +1707,7 @@ class Exec:
         for name in spec.extra_havoc:
             pass
         cxh = Ctx(self, h, self.entry, self.args0, None)
-        cxh.pre = st
+        cxh.pre = cx.pre
         for (lab, f) in spec.inv(cxh):
             h.assume(f)
         c = self.tobool(self.ev(cond, h)) if cond and cond.get('kind') else z3.BoolVal(True)
@@ -1659,7 +1717,7 @@ class Exec:
         cont, brk, rets = self.body_once(b, cond, inc, bodyn)
         for s2 in cont:
             cx2 = Ctx(self, s2, self.entry, self.args0, None)
-            cx2.pre = st
+            cx2.pre = cx.pre
             if spec.defs:
                 for f in spec.defs(cx2, Ctx(self, b0, self.entry, self.args0, None)):
                     s2.assume(f)
